@@ -10,7 +10,7 @@ STANDING_TRUST = [
 VERUS_UNITS = {
     'U-MP': dict(module='contracts.verus.msgpack_size', min_verified=37, timeout=600,
                  native_search=dict(src='src/msgpack.rs', file='msgpack_search.rs'),
-                 props=['C18', 'C04', 'C02', 'C03']),
+                 props=['C18', 'C04', 'C02', 'C03', 'C06', 'C01']),
     'U-CHK-V': dict(module='contracts.verus.yaml_chunker', min_verified=19, timeout=600,
                     native_search=dict(src='src/yaml/chunker.rs', file='chunker_search.rs'),
                     props=['C03', 'C05', 'C04', 'C02', 'C12']),
@@ -19,7 +19,7 @@ VERUS_UNITS = {
                     props=['C07', 'C02', 'C04', 'C05', 'C12', 'C01']),
     'U-MP-X': dict(module='contracts.verus.msgpack_transcode', min_verified=24, timeout=600,
                    native_search=dict(src='src/msgpack.rs', file='msgpack_search.rs'),
-                   props=['C03', 'C18', 'C04', 'C02']),
+                   props=['C03', 'C18', 'C04', 'C02', 'C06']),
     'U-VAL-V': dict(module='contracts.verus.transcode_value', min_verified=3, timeout=600,
                     props=['C01', 'C06']),
     'U-JSN-V': dict(module='contracts.verus.json_transcode', min_verified=1, timeout=600,
@@ -136,6 +136,10 @@ HARNESSES = [
       assumes=['Utf32Decoder.pos < 2^64-16 bytes']),
     H('U-ENC-32', 'encoding', 'utf32_source_error_propagates', 'bounded-size', ['C12', 'C07'], bounds='stream <= 6 B, failure at every offset',
       fns=['yaml::encoding::Utf32Decoder::next'], timeout=300, min_covers=1),
+    H('U-ENC-32', 'encoding', 'utf32_refill_schedule_independent', 'bounded-size', ['C02', 'C07'], bounds='stream <= 8 B, every byte value; source hands out 1..=3 bytes per refill / read',
+      fns=['yaml::encoding::Utf32Decoder::next'], timeout=600, min_covers=2),
+    H('U-ENC-16', 'encoding', 'utf16_refill_schedule_independent', 'bounded-size', ['C02', 'C07'], bounds='stream <= 6 B, every byte value; source hands out 1..=3 bytes per refill / read',
+      fns=['yaml::encoding::Utf16Decoder::next', 'yaml::encoding::Utf16Decoder::next_u16'], timeout=600, min_covers=1),
     H('U-ENC-16', 'encoding', 'endianness_decode_contract', 'complete', ['C07'], bounds='all 2^32 byte quadruples',
       fns=['yaml::encoding::Endianness::decode_u16', 'yaml::encoding::Endianness::decode_u32'], timeout=300),
     H('U-ENC-8', 'encoding', 'arraybuffer_ops_contract', 'complete', ['C04', 'C07', 'C02'], bounds='every ArrayBuffer<4> state x {read, write, set, consume} x every argument <= 4 B',
@@ -376,7 +380,7 @@ PROPERTIES = {
         assumptions=['BufReader 8 KiB read-ahead', 'libyaml look-ahead and Chunker::next one-document deferral (so the k+2 constant is not proved)'],
         not_covered=['heap measurements', 'first-document-after-one-read for json/msgpack transcode loops (needs the real parsers)']),
     'C06': dict(
-        explanation='Derived from the C01 contracts: the transcoder and transcode::Value are the identity on event sequences (same harnesses as C01), so writer_B . T . parser_B is a fixed point '
+        explanation='Derived from the C01 contracts: the transcoder and transcode::Value are the identity on event sequences (same harnesses as C01); re-reading xt\'s own MessagePack output from a slice goes through the size calculator, which Verus proves exact and overflow-free for every input (U-MP, U-MP-X), so writer_B . T . parser_B is a fixed point '
                     'whenever parser_B(writer_B(v)) = v for the crate pair (assumed). Claimed so that a transcoder mutant is reported under C06 as well.',
         assumptions=['reader(writer(v)) = v for each third-party crate pair', 'JSON float caveat as C01'],
         not_covered=['everything about the crates\' own round trips']),
